@@ -58,6 +58,7 @@ func runProperty(cfg *PropConfig, tier string, seed int) *propResult {
 		res.exit = 1
 		return res
 	}
+	E.coverReturns = tier == "thorough"
 	var all []*Obl
 	for _, fs := range cfg.Functions {
 		fn := E.funcs[fs.Key]
@@ -111,19 +112,26 @@ func runProperty(cfg *PropConfig, tier string, seed int) *propResult {
 		}
 	}
 	sort.Strings(res.trusted)
-	quickMs, fullMs := 2000, 10000
+	quickMs, fullMs := 4000, 40000
 	if tier == "thorough" {
-		quickMs, fullMs = 5000, 60000
+		quickMs, fullMs = 10000, 180000
 	}
 	var todo []*Obl
+	knownOpen := map[string]bool{}
+	for _, k := range loadKnown() {
+		if k.Status == "open" && k.Property == cfg.ID {
+			knownOpen[k.Obligation] = true
+		}
+	}
 	for _, o := range all {
 		if o.Status == "" {
+			o.Short = knownOpen[stripOrdinal(o.Name)]
 			todo = append(todo, o)
 		}
 	}
 	dir, _ := os.MkdirTemp("", "vcheck")
 	defer os.RemoveAll(dir)
-	Discharge(todo, dir, quickMs, fullMs, 16, res.stats)
+	Discharge(todo, dir, quickMs, fullMs, 10, res.stats)
 	res.obls = all
 
 	// verdicts
